@@ -63,6 +63,10 @@ struct Recorder final : public CValidationInterface {
     {
         tr->push_back("C:" + hx(pindex->GetBlockHash()));
     }
+    void BlockChecked(const std::shared_ptr<const CBlock>&, const BlockValidationState& state) override
+    {
+        if (!state.IsValid()) { std::string m = state.ToString(); for (char& c : m) if (c == ' ' || c == ':') c = '_'; tr->push_back("ERR:invalid-block_" + m); }
+    }
     void ChainStateFlushed(const kernel::ChainstateRole&, const CBlockLocator& locator) override
     {
         tr->push_back("F:" + hx(locator.vHave.front()));
@@ -336,7 +340,8 @@ std::string run_case(const std::vector<std::string>& w)
                 }
                 if (ins.empty()) {
                     for (size_t k = 0; k < nin && next_avail < avail.size(); ++k, ++next_avail) {
-                        in_txs.push_back(avail[next_avail].tx); ins.emplace_back(avail[next_avail].tx->GetHash(), avail[next_avail].n);
+                        if (std::find(in_txs.begin(), in_txs.end(), avail[next_avail].tx) == in_txs.end()) in_txs.push_back(avail[next_avail].tx);
+                        ins.emplace_back(avail[next_avail].tx->GetHash(), avail[next_avail].n);
                         total += avail[next_avail].tx->vout[avail[next_avail].n].nValue; in_height = avail[next_avail].height;
                     }
                 }
@@ -370,6 +375,7 @@ std::string run_case(const std::vector<std::string>& w)
             BlockValidationState st;
             S.cst().InvalidateBlock(st, target);
             S.invalidated.push_back(target);
+            { BlockValidationState st2; S.cst().ActivateBestChain(st2); }   // as the invalidateblock RPC does
             S.drain();
             S.dump_chain();
         } else if (name == "recon") {
